@@ -395,6 +395,9 @@ Proof.
   destruct (memN id (ids s)) eqn:E4.
   { injection H as <- <-. left. split; eauto. }
   apply negb_false_iff, N.eqb_eq in E3.
+  unfold enc_publish_chk in H. sk in H.
+  destruct ((tk x =? 8) && (io s =? 0)) eqn:E5.
+  { injection H as <- <-. left. split; eauto. }
   unfold new_chan in H. sk in H. injection H as <- <-. right. exists id.
   assert (EL : length (chans (enc_publish (set_idx s i) (pubtag_of (tk x)) id (if tk x =? 7 then tsize x else 0))) = length (chans s)).
   { unfold enc_publish. destruct (io _ =? 0); reflexivity. }
@@ -508,7 +511,7 @@ Inductive start_res (s : sink) (t k idq size : N) : sink -> Prop :=
 | SR_ready_park s1 : k = 5 -> io s <> 2 -> (cap s <= lenN (inflight s) \/ wrb s = true) -> parked s s1 ->
     start_res s t k idq size (set_tasks s1 (put_task t (mkTask 5 0 0 (TReadyW (length (chans s))) false None) (tasks s1)))
 | SR_send s0 x s1 st :
-    (k = 1 \/ k = 2 \/ k = 3 \/ k = 4 \/ k = 7) ->
+    (k = 1 \/ k = 2 \/ k = 3 \/ k = 4 \/ k = 7 \/ k = 8) ->
     s0 = (if k =? 7 then set_chans s (chans s ++ [open_ch]) else s) ->
     x = new_task k idq size (length (chans s)) ->
     send_res s0 x s1 st ->
@@ -528,7 +531,7 @@ Lemma start_task_spec s t k idq size : find_task t (tasks s) = None ->
   start_res s t k idq size (start_task s t k idq size).
 Proof.
   intros F. unfold start_task. rewrite F.
-  destruct ((k =? 0) || (7 <? k)) eqn:E0; [constructor|].
+  destruct ((k =? 0) || (8 <? k)) eqn:E0; [constructor|].
   apply orb_false_iff in E0 as [E0 E7]. apply N.eqb_neq in E0. apply N.ltb_ge in E7.
   destruct (N.eqb_spec k 6) as [->|K6].
   { unfold is_closed. destruct (io s =? 2).
@@ -542,7 +545,7 @@ Proof.
     - cbv beta iota zeta. apply SR_ready_park; auto; [|reflexivity].
       apply orb_true_iff in E as [E|E]; [left; now apply N.leb_le|now right].
     - apply SR_ready_done; auto. }
-  assert (K : k = 1 \/ k = 2 \/ k = 3 \/ k = 4 \/ k = 7) by lia.
+  assert (K : k = 1 \/ k = 2 \/ k = 3 \/ k = 4 \/ k = 7 \/ k = 8) by lia.
   set (s0 := if k =? 7 then set_chans s (chans s ++ [open_ch]) else s).
   set (x := new_task k idq size (length (chans s))).
   assert (E : (if k =? 7 then let '(s0, c) := new_chan s in
@@ -627,7 +630,7 @@ Inductive create_res (s : sink) (t k idq size : N) : sink -> Prop :=
 | CR_new : k = 3 \/ k = 4 ->
     create_res s t k idq size (set_tasks s (put_task t (mkTask k idq 0 TNew false None) (tasks s)))
 | CR_send s0 x s1 st :
-    (k = 1 \/ k = 2 \/ k = 7) ->
+    (k = 1 \/ k = 2 \/ k = 7 \/ k = 8) ->
     s0 = (if k =? 7 then set_chans s (chans s ++ [open_ch]) else s) ->
     x = new_task k idq size (length (chans s)) ->
     send_res s0 x s1 st ->
@@ -637,7 +640,7 @@ Lemma create_task_spec s t k idq size : find_task t (tasks s) = None ->
   create_res s t k idq size (create_task s t k idq size).
 Proof.
   intros F. unfold create_task. rewrite F.
-  destruct ((k =? 0) || (7 <? k)) eqn:E0; [constructor|].
+  destruct ((k =? 0) || (8 <? k)) eqn:E0; [constructor|].
   apply orb_false_iff in E0 as [E0 E7]. apply N.eqb_neq in E0. apply N.ltb_ge in E7.
   destruct (N.eqb_spec k 6) as [->|K6]; [now apply CR_pub0|].
   destruct (N.eqb_spec k 5) as [->|K5].
@@ -648,7 +651,7 @@ Proof.
     - apply CR_ready_done; auto. }
   destruct (N.eqb_spec k 3) as [->|K3]; [apply CR_new; auto|].
   destruct (N.eqb_spec k 4) as [->|K4]; [apply CR_new; auto|]. cbn [orb].
-  assert (K : k = 1 \/ k = 2 \/ k = 7) by lia.
+  assert (K : k = 1 \/ k = 2 \/ k = 7 \/ k = 8) by lia.
   set (s0 := if k =? 7 then set_chans s (chans s ++ [open_ch]) else s).
   set (x := new_task k idq size (length (chans s))).
   assert (E : (if k =? 7 then let '(s0, c) := new_chan s in
